@@ -268,6 +268,10 @@ class Peer:
         self.fsm_runner.clear()
         self._teardown = None
         self.neighbor.reset_rib()
+        # the session is gone and nothing will be flushed to it: a 'sync' API command waiting for that flush is
+        # released (it blocks the main loop while it waits: API, signals and new connections with it)
+        if self.neighbor.rib:
+            self.neighbor.rib.outgoing.fire_flush_callbacks()
 
         # If we are restarting, and the neighbor definition is different, update the neighbor
         if self._neighbor:
@@ -588,6 +592,10 @@ class Peer:
         if not new_routes and self.neighbor.rib.outgoing.pending():
             log.debug(lazymsg('peer.update.generator.creating'), self.id())
             new_routes = self.proto.new_update_generator(include_withdraw)
+        elif not new_routes:
+            # nothing is waiting to be sent: a 'sync' API command which changed nothing (a route already
+            # advertised) waits for a flush which no generator will ever report - and the main loop with it
+            self.neighbor.rib.outgoing.fire_flush_callbacks()
 
         if new_routes:
             try:
